@@ -1235,6 +1235,70 @@ pub fn run_case(lines: &[String]) -> CaseResult {
             }
         }
     }
+    // ---- after the history: WeakDom::from_raw(dom.into_raw()) is the identity on every DOM the history produced, and
+    // the id set from_raw rebuilds is the set of ids held (Proofs/DomRawFacts.v: raw_roundtrip).  Done last, so that the
+    // rebuilt set cannot heal bookkeeping the history damaged.  Skipped when a step panicked or an oracle already failed.
+    // from_raw documents a panic for a `UniqueId` property that holds a value of another type: such DOMs are outside
+    // the round trip (hypothesis uid_typed of the theorem)
+    let typed = w.doms.iter().all(|d| {
+        w.all_labels.iter().all(|l| match d.get_by_ref(w.label2ref[l]).and_then(|i| i.properties.get(&ustr::ustr("UniqueId"))) {
+            None | Some(Variant::UniqueId(_)) => true,
+            Some(_) => false,
+        })
+    });
+    let clean = typed && oracle.is_empty() && obs.last().map(|o| o != "P").unwrap_or(false);
+    if clean && !w.doms.is_empty() {
+        let before = w.observe(&[]);
+        let uid_before = w.uid_table();
+        let ok = std::panic::catch_unwind(std::panic::AssertUnwindSafe(|| {
+            for d in 0..w.doms.len() {
+                let dom = std::mem::take(&mut w.doms[d]);
+                let (root, instances) = dom.into_raw();
+                w.doms[d] = WeakDom::from_raw(root, instances);
+            }
+        }));
+        *stats.entry("raw_roundtrips".into()).or_insert(0) += 1;
+        if ok.is_err() {
+            oracle.push("C12 final: WeakDom::from_raw(dom.into_raw()) panics on a DOM produced by the history".to_string());
+        } else {
+            let after = w.observe(&[]);
+            if after != before {
+                oracle.push("C10 final: WeakDom::from_raw(dom.into_raw()) changed the DOM".to_string());
+            }
+            // the rebuilt id set: an id some instance holds collides, an id nobody holds does not
+            for d in 0..w.doms.len() {
+                let root = w.doms[d].root_ref();
+                let held: Vec<UniqueId> = uid_before[d].values().copied().collect();
+                let free = UniqueId::new(0x7fff_0000 + d as u32, 7, 0x1234_5678_9abc);
+                let mut probes: Vec<(UniqueId, bool)> = vec![(free, false)];
+                if let Some(h) = held.first() {
+                    probes.push((*h, true));
+                }
+                for (u, collides) in probes {
+                    let r = std::panic::catch_unwind(std::panic::AssertUnwindSafe(|| {
+                        let nr = w.doms[d].insert(root, InstanceBuilder::new("Probe").with_property("UniqueId", u));
+                        let got = w.doms[d].get_by_ref(nr).and_then(|i| match i.properties.get(&ustr::ustr("UniqueId")) {
+                            Some(Variant::UniqueId(x)) => Some(*x),
+                            _ => None,
+                        });
+                        w.doms[d].destroy(nr);
+                        got
+                    }));
+                    match r {
+                        Err(_) => oracle.push(format!("C12 final: inserting into dom{d} rebuilt by from_raw panics")),
+                        Ok(got) => {
+                            if collides && got == Some(u) {
+                                oracle.push(format!("C12 final: after from_raw(into_raw()) an instance inserted with UniqueId {u}, which dom{d} already holds, kept it"));
+                            }
+                            if !collides && got != Some(u) {
+                                oracle.push(format!("C12 final: after from_raw(into_raw()) an instance inserted with UniqueId {u}, which nobody in dom{d} holds, did not keep it"));
+                            }
+                        }
+                    }
+                }
+            }
+        }
+    }
     *stats.entry("instances".into()).or_insert(0) += w.all_labels.len() as u64;
     CaseResult { obs, oracle, nontrivial, stats }
 }
